@@ -308,6 +308,7 @@ fn tag_line_indices(
     lines: &[Vec<DocIR>],
 ) -> HashMap<String, Vec<usize>> {
     let mut groups: HashMap<String, Vec<usize>> = HashMap::new();
+    let mut tags_on_line: HashMap<usize, usize> = HashMap::new();
     let mut li = 0;
     for el in c.syntax().descendants_with_tokens() {
         match el {
@@ -315,15 +316,22 @@ fn tag_line_indices(
                 li += 1
             }
             rowan::NodeOrToken::Node(n) => {
-                if let Some(tag) = LuaDocTag::cast(n)
-                    && let Some(key) = align_key(ctx, &tag)
-                    && li < lines.len()
-                {
-                    groups.entry(key).or_default().push(li);
+                if let Some(tag) = LuaDocTag::cast(n) {
+                    *tags_on_line.entry(li).or_default() += 1;
+                    if let Some(key) = align_key(ctx, &tag)
+                        && li < lines.len()
+                    {
+                        groups.entry(key).or_default().push(li);
+                    }
                 }
             }
             _ => {}
         }
+    }
+    // A line holding several tags (`---@class A---@field x T`) is rebuilt from one tag only when
+    // it is aligned, which would drop the others: leave such lines as they are.
+    for indices in groups.values_mut() {
+        indices.retain(|index| tags_on_line.get(index).copied().unwrap_or(0) <= 1);
     }
     groups
 }
